@@ -16,6 +16,8 @@ structure GoodCfg (cfg : Cfg) : Prop where
   strict : cfg.ge = false
   grows : cfg.growEmpty = true
   ideal_gt : ∀ n, n < cfg.ideal n
+  /-- `Table_Assign` returns at once when `self is obj` (fix a3140e4) -/
+  guards : cfg.selfGuard = true
 
 theorem Rep.nitems_zero_of_n_zero {hash : κ → Nat} {t : Tab κ ν} {m : Spec κ ν} (r : Rep hash t m) (h : t.n = 0) :
     t.nitems = 0 := by
@@ -96,6 +98,37 @@ theorem get_rep (hash : κ → Nat) (t : Tab κ ν) (m : Spec κ ν) (r : Rep ha
   · simp only [get, h2, h1]
   · simp only [get, h2, h1, Fin.getElem_fin, h3, h5]
 
+/-- `Table_Get` given a pointer into the record that stores `k` (the key object: `foreach (p in t) get(t, p)`): the address
+    test of Table.c:523-525 — as it is, and as repaired — answers the value stored in that record, i.e. what the map binds to `k` -/
+theorem getViaKey_rep (cfg : Cfg) (hash : κ → Nat) (asKey : ν → Option κ) (t : Tab κ ν) (m : Spec κ ν) (r : Rep hash t m) (k : κ) :
+    getViaKey cfg hash asKey t k = .ok (match Spec.get m k with | none => .raised .KeyError | some v => .val v) := by
+  rcases find_rep hash t m r k with ⟨h1, h2⟩ | ⟨v, p, hp, e, h1, h2, h3, h4, h5⟩
+  · simp only [getViaKey, h2, h1]
+  · simp only [getViaKey, h2, h1, getArg, dif_pos hp]
+    cases cfg.getChecksKey
+    · simp only [Bool.false_eq_true, if_false, getInSlot, Fin.getElem_fin, h3, h5]
+    · simp only [if_true, getInSlotChecked, Fin.getElem_fin, h3, h5]
+
+/-- … and given the *value* object of that record (`get(t, get(t, k))`) the test as it is answers that same value again -/
+theorem getViaVal_rep (cfg : Cfg) (hc : cfg.getChecksKey = false) (hash : κ → Nat) (asKey : ν → Option κ) (t : Tab κ ν)
+    (m : Spec κ ν) (r : Rep hash t m) (k : κ) :
+    getViaVal cfg hash asKey t k = .ok (match Spec.get m k with | none => .raised .KeyError | some v => .val v) := by
+  rcases find_rep hash t m r k with ⟨h1, h2⟩ | ⟨v, p, hp, e, h1, h2, h3, h4, h5⟩
+  · simp only [getViaVal, h2, h1]
+  · simp only [getViaVal, h2, h1, getArg, dif_pos hp, hc, Bool.false_eq_true, if_false, getInSlot, Fin.getElem_fin, h3, h5]
+
+/-- … while the repaired test lets it fall through to the cast and the probing loop: the answer is what the map binds to
+    the value read as a key -/
+theorem getViaVal_rep_checked (cfg : Cfg) (hc : cfg.getChecksKey = true) (hash : κ → Nat) (asKey : ν → Option κ) (t : Tab κ ν)
+    (m : Spec κ ν) (r : Rep hash t m) (k : κ) :
+    getViaVal cfg hash asKey t k = .ok (Spec.getOfVal asKey m k) := by
+  rcases find_rep hash t m r k with ⟨h1, h2⟩ | ⟨v, p, hp, e, h1, h2, h3, h4, h5⟩
+  · simp only [getViaVal, h2, Spec.getOfVal, h1]
+  · simp only [getViaVal, h2, Spec.getOfVal, h1, getArg, dif_pos hp, hc, if_true, getInSlotChecked, Fin.getElem_fin, h3, h5]
+    cases hk : asKey v with
+    | none => rfl
+    | some k' => simp only [get_rep hash t m r k']; cases m.get k' <;> rfl
+
 /-- `Table_Mem` -/
 theorem mem_rep (hash : κ → Nat) (t : Tab κ ν) (m : Spec κ ν) (r : Rep hash t m) (k : κ) :
     mem hash t k = .ok (.bool (Spec.get m k).isSome) := by
@@ -136,6 +169,43 @@ theorem assignFrom_rep (cfg : Cfg) (g : GoodCfg cfg) (hash : κ → Nat) (src : 
     exact ⟨_, rfl, rep_empty hash _ (by omega)⟩
   · obtain ⟨t', h1, _, h3⟩ := refill_rep cfg hash src m r.toRep0 (cfg.ideal src.nitems) hid
     exact ⟨t', h1, h3⟩
+
+theorem length_spec_set_le (m : Spec κ ν) (k : κ) (v : ν) : (Spec.set m k v).length ≤ m.length + 1 := by
+  simp only [Spec.set, Spec.rem, List.length_cons]
+  exact Nat.succ_le_succ (List.length_filter_le _ _)
+
+/-- the insertion loop of `Table_New` / `Table_Assign` (no growth in between): as long as the array has room for all pairs,
+    every `Table_Set_Move` succeeds and the table represents the pairs folded into the map, a later pair replacing an earlier
+    one for the same key -/
+theorem insertAll_rep0 (cfg : Cfg) (hge : cfg.ge = false) (hash : κ → Nat) :
+    ∀ (kvs : List (κ × ν)) (t : Tab κ ν) (m : Spec κ ν), Rep0 hash t m → t.nitems + kvs.length < t.n →
+      ∃ t', insertAll cfg hash t kvs = .ok t' ∧ t'.n = t.n ∧ t'.nitems ≤ t.nitems + kvs.length ∧
+        Rep0 hash t' (kvs.foldl (fun m p => Spec.set m p.1 p.2) m) := by
+  intro kvs
+  induction kvs with
+  | nil => intro t m r _; exact ⟨t, rfl, rfl, by simp, r⟩
+  | cons p kvs ih =>
+    intro t m r hroom
+    simp only [List.length_cons] at hroom
+    obtain ⟨t1, e1, n1, r1⟩ := setMove_rep0 cfg hge hash t m r (by omega) p.1 p.2
+    have hl : t1.nitems ≤ t.nitems + 1 := by
+      have := length_spec_set_le m p.1 p.2
+      rw [r1.len, r.len] at this; exact this
+    obtain ⟨t', e2, n2, l2, r2⟩ := ih t1 (Spec.set m p.1 p.2) r1 (by rw [n1]; omega)
+    refine ⟨t', ?_, by rw [n2, n1], by simp only [List.length_cons]; omega, r2⟩
+    unfold insertAll at e2 ⊢
+    rw [List.foldlM_cons]; simp only [e1]; exact e2
+
+/-- `Table_New` with initial pairs / `Table_Assign` from a map that is not a Table -/
+theorem fill_rep (cfg : Cfg) (g : GoodCfg cfg) (hash : κ → Nat) (kvs : List (κ × ν)) :
+    ∃ t', fill cfg hash kvs = .ok t' ∧ Rep hash t' (Spec.ofPairs kvs) := by
+  unfold fill
+  have hid := g.ideal_gt kvs.length
+  rw [if_neg (by omega)]
+  obtain ⟨t', e, n, l, r⟩ := insertAll_rep0 cfg g.strict hash kvs (Tab.empty (cfg.ideal kvs.length)) []
+    (rep_empty hash _ (by omega)).toRep0 (by simp only [Tab.empty]; omega)
+  refine ⟨t', e, r, Or.inl ?_⟩
+  rw [n]; simp only [Tab.empty] at l ⊢; omega
 
 /-- `new(Table, K, V)` -/
 theorem new_rep (cfg : Cfg) (g : GoodCfg cfg) (hash : κ → Nat) : Rep hash (new cfg : Tab κ ν) [] :=
